@@ -337,6 +337,14 @@ class Gen:
         if r.random() < 0.5:
             yield {"k": "binop", "f": r.choice(["mul", "add", "div"]), "x": ia, "y": ib, "store": True}
             yield {"k": "binop", "f": r.choice(["mul", "add", "div"]), "x": ib, "y": ia, "store": True}
+        if r.random() < 0.5:
+            # the same symbol, now defined differently in the two registries: sums and differences must convert
+            yield self.g_modify(w, nb, sym)
+            yield {"k": "quantity", "node": nb, "h": 0, "v": r.choice(VALUES), "s": s1, "route": "ctor", "store": True}
+            ib2 = w.last_stored
+            f2 = r.choice(["add", "sub", "add", "max", "lt"])
+            yield {"k": "binop", "f": f2, "x": ia, "y": ib2, "store": True}
+            yield {"k": "binop", "f": f2, "x": ib2, "y": ia, "store": True}
         if r.random() < 0.4:
             # a bare number with a registry: dimensionless in A, multiplied with an atomic unit of B
             yield {"k": "quantity", "node": na, "h": 0, "v": r.choice(VALUES), "s": r.choice(["dimensionless", "1", "percent"]),
@@ -405,6 +413,46 @@ class Gen:
         yield self.g_probe_string(w, ni, sym=sym)
         yield {"k": "restart", "node": ni, "route": r.choice(["json", "pickle", "deepcopy"])}
         yield self.g_probe_string(w, ni, sym=sym)
+        yield self.g_edit(w, ni, sym)
+        yield self.g_probe_string(w, ni, sym=sym)
+
+    QUOTIENT_PAIRS = [("erg", "N*m"), ("J", "dyn*cm"), ("W", "erg/s"), ("Pa", "dyn/cm**2"), ("N", "g*cm/s**2"),
+                      ("km/hr", "ft/s"), ("Msun/pc**3", "g/cm**3")]
+
+    def s_quotient(self, w):
+        """Same dimension, different compound spellings that do not cancel symbol by symbol: the quotient is a
+        pure number with a scale (erg / (N*m) = 1e-7), which has its own branch in __array_ufunc__."""
+        r = self.rng
+        ni = self.pick_node(w, custom=True)
+        if ni is None:
+            yield self.g_new_node(w, route=r.choice(["plain", "usys", "lut"]))
+            ni = len(w.nodes) - 1
+        a, b = r.choice(self.QUOTIENT_PAIRS)
+        yield {"k": "quantity", "node": ni, "h": 0, "v": r.choice(VALUES), "s": a, "route": r.choice(["ctor", "array"]), "store": True}
+        ia = w.last_stored
+        yield {"k": "quantity", "node": ni, "h": 0, "v": r.choice(VALUES), "s": b, "route": r.choice(["ctor", "array"]), "store": True}
+        ib = w.last_stored
+        yield {"k": "binop", "f": "div", "x": ia, "y": ib, "store": True}
+        ires = w.last_stored
+        yield {"k": "binop", "f": "div", "x": ib, "y": ia, "store": True}
+        yield {"k": "binop", "f": r.choice(["add", "sub", "mul"]), "x": ia, "y": ib, "store": True}
+        syms = [s_ for s_ in self.syms if s_ in w.nodes[ni % len(w.nodes)].model]
+        yield {"k": "to", "x": ires, "s": r.choice(["dimensionless", "percent"] + syms), "how": "to", "store": False}
+
+    def s_empty_define(self, w):
+        """define_unit / add as the very first thing done to an EMPTY registry."""
+        r = self.rng
+        yield self.g_new_node(w, route="empty")
+        ni = len(w.nodes) - 1
+        sym = r.choice(self.syms)
+        if r.random() < 0.7:
+            yield {"k": "define_unit", "node": ni, "h": 0, "sym": sym, "v": r.choice(VALUES[:5]),
+                   "s": r.choice(["Msun", "km", "s", "erg", "K"]), "prefixable": r.random() < 0.5, "form": "quantity_default"}
+        else:
+            yield {"k": "add", "node": ni, "h": 0, "sym": sym, "scale": float(r.choice(SCALES)), "dims": r.choice(self.cfg["dims"]),
+                   "prefixable": True}
+        yield self.g_probe_string(w, ni, sym=sym)
+        yield self.g_probe_string(w, 0, sym=sym)
         yield self.g_edit(w, ni, sym)
         yield self.g_probe_string(w, ni, sym=sym)
 
@@ -507,6 +555,7 @@ class Gen:
                 ("s_stale", c["w_stale"]), ("s_cross", c["w_cross"]), ("s_refusal", c["w_refusal"]),
                 ("s_default", c["w_default"]), ("s_restart", c["w_restart"]), ("s_usys", c["w_usys"]),
                 ("s_usys_custom", c.get("w_usys_custom", 0)), ("s_usys_define", c["w_usys"] * 0.7),
+                ("s_quotient", 0.5 * c["w_calc"] / 4.0), ("s_empty_define", 0.3 if "empty" in c["routes"] or c["profile"] == "C13" else 0.1),
                 ("new_node", c["w_new_node"]), ("edit", c["w_edit"]), ("probe", c["w_probe"]),
                 ("calc", c["w_calc"]), ("chaos", c["w_chaos"]),
             ])
